@@ -551,7 +551,7 @@ def run_one(seed, index, do_shrink):
 def plan(mode, tier):
   if tier == "thorough":
     return {"runs": 30000, "budget_s": 900, "chunk": 20, "cap_s": 3000}
-  return {"runs": 160, "budget_s": 35, "chunk": 4, "cap_s": 900,
+  return {"runs": 160, "budget_s": 60, "chunk": 4, "cap_s": 900,
           "chunks_per_worker": 1}
 
 
